@@ -85,9 +85,15 @@ func (h H) dialerVerifiesIdentity(rule string) {
 		core.Instrs(f, func(in ssa.Instruction) {
 			if a, ok := in.(*ssa.Alloc); ok && strings.HasPrefix(a.Comment, "complit") {
 				if pt, ok := a.Type().(*types.Pointer); ok && types.Identical(pt.Elem(), connT) {
-					name := h.name(core.Root(f))
-					okc := name == "dial" || name == "(*server).handleConn" || name == "(*Client).getConn"
-					h.C.Check(rule+" who-creates-conn", "conn literal in "+name, okc, h.pos(in), "a connection object is created outside dial/handleConn/Client.getConn (bypassing the identity exchange)")
+					// a constructor helper no rule knows by name counts for the functions that call it
+					okc := true
+					names := h.effectiveRoots(f)
+					for _, name := range names {
+						if !(name == "dial" || name == "(*server).handleConn" || name == "(*Client).getConn") {
+							okc = false
+						}
+					}
+					h.C.Check(rule+" who-creates-conn", "conn literal in "+strings.Join(names, ","), okc && len(names) > 0, h.pos(in), "a connection object is created outside dial/handleConn/Client.getConn (bypassing the identity exchange)")
 				}
 			}
 		})
